@@ -493,6 +493,25 @@ fn near_queries(b: &zoo::Built, seed: u64, info: &mut String) {
             28 => format!("({k} ({c}) @a ({c2}) @b (#not-eq? @a @b))"),
             _ => format!("(({k}) @x (#any-of? @x \"a\" \"b\"))"),
         };
+        // decoration: a capture and/or a quantifier after any closing parenthesis / bracket (every
+        // error path of the pattern parser is then also taken with capture-quantifier arrays alive)
+        if rng.chance(1, 2) {
+            let mut d = String::new();
+            let mut ncap = 0;
+            for ch in q.chars() {
+                d.push(ch);
+                if ch == ')' || ch == ']' {
+                    if rng.chance(1, 6) {
+                        d.push(*rng.pick(&['+', '?', '*']));
+                    }
+                    if rng.chance(1, 3) {
+                        ncap += 1;
+                        d.push_str(&format!(" @c{ncap}"));
+                    }
+                }
+            }
+            q = d;
+        }
         // damaged syntax
         match rng.below(14) {
             0 if q.len() > 2 => {
